@@ -279,3 +279,17 @@ PROPS["C20"] = {
                  {"variant": "explanations", "cases": 4000, "params": {"processes": 0}, "timeout": 3400}],
     "floors": {"any": {"thread_replays": 2000, "process_replays": 300, "dump_lines_compared": 1000, "thread_switches_observed": 5000, "noise_iterations_during_replays": 5000}},
 }
+
+PROPS["C07"] = {
+    "rule": "cases (explanations build): a generated history over LSym inserted with add_syn_expr (families: permuted copies incl. 3- and 4-cycles, redundancy, self-reference, symmetric users, "
+            "wrappers under binders), every union justified by a unique string, in two thirds of the cases 1-2 rewrite iterations with named rules; up to 8 pairs of inserted terms that eq reports "
+            "equal are explained. Each proof DAG is walked once; every node's two sides are rendered with get_syn_expr and converted to the harness's own term model; reflexivity, symmetry, "
+            "transitivity (renamings propagated through the middle term), congruence (children opened with common bound names) are validated up to renamings injective on each side of a premise; "
+            "explicit leaves must be instances of the equation asserted with that justification, or syntactic instances of the named rule (computed b[x:=t] right sides exempt); the conclusion "
+            "must be the query up to an injective renaming; building, explaining, to_string and check() must not panic. Non-trivial = distinct history with a proof containing a congruence step "
+            "or >= 2 explicit leaves.",
+    "assumptions": ["the term-level rule formulations of DESIGN §3.6; get_syn_expr is used only as a renderer of the two sides of each step"],
+    "quick": [{"variant": "explanations", "cases": 1200, "timeout": 900}],
+    "thorough": [{"variant": "explanations", "cases": 120000, "params": {"case_timeout": 120}, "timeout": 3400}],
+    "floors": {"any": {"proofs": 3000, "proof_nodes": 15000, "steps_congruence": 300, "steps_transitivity": 3000, "leaves_explicit": 3000, "leaves_by_rule": 60}},
+}
